@@ -50,7 +50,12 @@ static int vp_fits(const char *s, int a, int b, const char *ref, int reflen)
 }
 #define vp_fits_int(s, a, b)        vp_fits((s), (a), (b), "2147483647", 10)
 /* |number| fits a long: <= LONG_MAX, or <= LONG_MAX + 1 with a '-' sign (strtol: else ERANGE) */
+#if VP_N <= 19
+/* a string of fewer than 19 characters holds no number of 19 digits: always true */
+#define vp_fits_long(s, a, b, neg)  1
+#else
 #define vp_fits_long(s, a, b, neg)  vp_fits((s), (a), (b), (neg) ? "9223372036854775808" : "9223372036854775807", 19)
+#endif
 
 /* vp_dec_mag(s,a,b): the decimal value of the run (unspecified if it does not fit an
  * unsigned long).
@@ -60,9 +65,9 @@ static int vp_fits(const char *s, int a, int b, const char *ref, int reflen)
  * for every such function, in particular for the decimal value, and the SAT problem
  * loses the 64-bit multiply-add chains (measured at VP_N = 12: accept/refuse 5 s,
  * positions of the numbers 7 s, equality of the numbers 70-170 s with real
- * arithmetic).  The two facts about the decimal value that are needed -- a number that
- * vp_fits an int / a long is <= INT_MAX / LONG_MAX -- are built in by clamping, which is
- * the identity on the real function: nothing is assumed.  -DVP_CONCRETE_ARITH
+ * arithmetic).  The two facts about the decimal value that are needed -- a number of at
+ * most 9 / 18 digits is <= 999999999 / 10^18-1, hence fits an int / a long -- are built
+ * in by clamping, which is the identity on the real function: nothing is assumed.  -DVP_CONCRETE_ARITH
  * (thorough tier) and the native cross-check use the real arithmetic. */
 #if defined(VERIF_CBMC) && !defined(VP_CONCRETE_ARITH)
 _Static_assert(VP_N >= 8 && VP_N <= 16, "vp_pack packs the string into two 64-bit words");
@@ -79,10 +84,10 @@ static unsigned long vp_pack(const char *s, int a, int b, int word)
 static unsigned long vp_dec_mag(const char *s, int a, int b)
 {
 	unsigned long m = __CPROVER_uninterpreted_dec_mag(vp_pack(s, a, b, 0), vp_pack(s, a, b, 1), a, b);
-	if (m > (unsigned long) INT_MAX && vp_fits_int(s, a, b))
-		m = (unsigned long) INT_MAX;
-	if (m > (unsigned long) LONG_MAX && vp_fits_long(s, a, b, 0))
-		m = (unsigned long) LONG_MAX;
+	if (b - a <= 9 && m > 999999999UL)
+		m = 999999999UL;
+	if (b - a <= 18 && m > 999999999999999999UL)
+		m = 999999999999999999UL;
 	return m;
 }
 #else
@@ -359,9 +364,10 @@ static int spec_actual(const char *s, int k)
 	return vp_accepted_shape(s, sh) ? vp_actual_value(s, sh.a[k], sh.b[k], sh.neg[k]) : -1;
 }
 
-/* every maximal run of digits is a number that fits an int (so that the conversion
- * (int) strtol(..) in version_parse never narrows, whether the string is accepted or not) */
-static int spec_ints_fit(const char *s)
+/* every maximal run of digits has at most 9 digits, hence is a number that fits an int
+ * (so that the conversion (int) strtol(..) in version_parse never narrows, whether the
+ * string is accepted or not) */
+static int spec_runs_short(const char *s)
 {
 	int a = -1;
 	for (int i = 0; i < VP_N; i++) {
@@ -369,9 +375,9 @@ static int spec_ints_fit(const char *s)
 		if (c >= '0' && c <= '9') {
 			if (a < 0)
 				a = i;
-		} else {
-			if (a >= 0 && !vp_fits_int(s, a, i))
+			if (i - a >= 9)
 				return 0;
+		} else {
 			a = -1;
 		}
 		if (c == '\0')
@@ -390,23 +396,49 @@ static int spec_terminated(const char *s)
 }
 
 /* CARVE-OUT (finding "lenient version_parse"): the strings on which the two languages
- * differ, and those holding a number that (int) strtol(..) would narrow (L4) */
+ * differ, and those holding a number of 10 or more digits, which (int) strtol(..) may
+ * narrow (L4; ten-digit numbers up to INT_MAX are the only harmless strings excluded) */
 static int spec_outside_finding(const char *s)
 {
-	return spec_wellformed(s) == spec_accepted(s) && spec_ints_fit(s);
+	return spec_wellformed(s) == spec_accepted(s) && spec_runs_short(s);
 }
 #define VP_COMPAT(w0, w1, h0, h1) ((w0) == (h0) && (w1) <= (h1))
+
+/* A private copy of the string (up to its NUL, zero-filled after it; the first VP_N
+ * bytes if there is none).  The predicates below work on the copy: a string reached
+ * through pointers loaded from the heap (thread -> meta -> require -> value) is then read
+ * once per predicate instead of once per scanner step (each such read is a case split
+ * over the objects the pointer may designate). */
+struct vp_str { char c[VP_N]; };
+static struct vp_str vp_load(const char *s)
+{
+	struct vp_str v;
+	int end = 0;
+	for (int i = 0; i < VP_N; i++) {
+		char c = end ? '\0' : s[i];
+		if (c == '\0')
+			end = 1;
+		v.c[i] = c;
+	}
+	return v;
+}
 
 /* ---- the contract of version_parse as predicates (one evaluation of each scanner) ---- */
 /* precondition: terminated, outside the finding */
 static int vp_pre(const char *version)
 {
-	return version == NULL || (spec_terminated(version) && spec_outside_finding(version));
+	if (version == NULL)
+		return 1;
+	struct vp_str v = vp_load(version);
+	return spec_terminated(v.c) && spec_outside_finding(v.c);
 }
 /* accepted exactly when well-formed */
 static int vp_post_iff(const char *version, int ret)
 {
-	return (ret == 0) == (version != NULL && spec_wellformed(version));
+	if (version == NULL)
+		return ret != 0;
+	struct vp_str v = vp_load(version);
+	return (ret == 0) == (spec_wellformed(v.c) != 0);
 }
 /* on acceptance: the three numbers strtol converted are exactly the three components of
  * the grammar (positions recorded by the libc model) and tuple[] holds their values */
@@ -414,11 +446,12 @@ static int vp_post_numbers(const char *version, int ret, const int *tuple)
 {
 	if (ret != 0)
 		return 1;
-	struct vp_shape sh = vp_shape_strict(version);
+	struct vp_str v = vp_load(version);
+	struct vp_shape sh = vp_shape_strict(v.c);
 	for (int c = 0; c < 3; c++) {
 		if (m_conv_a[c] != sh.a[c] || m_conv_b[c] != sh.b[c])
 			return 0;
-		if (tuple[c] < 0 || (unsigned long) tuple[c] != vp_dec_mag(version, m_conv_a[c], m_conv_b[c]))
+		if (tuple[c] < 0 || (unsigned long) tuple[c] != vp_dec_mag(v.c, m_conv_a[c], m_conv_b[c]))
 			return 0;
 	}
 	return 1;
@@ -426,17 +459,21 @@ static int vp_post_numbers(const char *version, int ret, const int *tuple)
 /* the same for the language really accepted */
 static int va_post_iff(const char *version, int ret)
 {
-	return (ret == 0) == (version != NULL && spec_accepted(version));
+	if (version == NULL)
+		return ret != 0;
+	struct vp_str v = vp_load(version);
+	return (ret == 0) == (spec_accepted(v.c) != 0);
 }
 static int va_post_numbers(const char *version, int ret, const int *tuple)
 {
 	if (ret != 0)
 		return 1;
-	struct vp_shape sh = vp_shape_actual(version);
+	struct vp_str v = vp_load(version);
+	struct vp_shape sh = vp_shape_actual(v.c);
 	for (int c = 0; c < 3; c++) {
 		if (m_conv_a[c] != sh.a[c] || m_conv_b[c] != sh.b[c])
 			return 0;
-		if (tuple[c] != vp_actual_value(version, m_conv_a[c], m_conv_b[c], sh.neg[c]))
+		if (tuple[c] != vp_actual_value(v.c, m_conv_a[c], m_conv_b[c], sh.neg[c]))
 			return 0;
 	}
 	return 1;
